@@ -311,7 +311,8 @@ impl<T: Config> UdpProtocol<T> {
         }
 
         let now = millis_since_epoch();
-        let seconds = (now - self.stats_start_time) / 1000;
+        // saturating: the wall clock may have stepped backwards since the connection was started
+        let seconds = now.saturating_sub(self.stats_start_time) / 1000;
         if seconds == 0 {
             return Err(GgrsError::NotEnoughData);
         }
